@@ -111,8 +111,15 @@ def generate(seed, tier):
             if len(leaves_) < 2 or not free:
                 break
             a, b2 = leaves_.pop(), leaves_.pop()
-            k = fr.randrange(4)
-            if k == 0:
+            k = fr.randrange(6)
+            if k == 4:    # IS... predicates other than ISERROR
+                f = ['op', '+', ['f', fr.pick(['ISNA', 'ISNUMBER', 'ISTEXT']),
+                                 a],
+                     ['f', fr.pick(['ISNA', 'ISNUMBER', 'ISBLANK']), b2]]
+            elif k == 5:
+                f = ['f', 'IF', ['f', fr.pick(['ISNUMBER', 'ISNA']), a],
+                     ['n', 7], ['f', 'IFERROR', b2, ['n', 2]]]
+            elif k == 0:
                 f = ['op', '+', ['f', 'IFERROR', a, ['n', 0]],
                      ['f', 'IFERROR', b2, ['n', 0]]]
             elif k == 1:
@@ -309,7 +316,8 @@ def leaves(e, conds=(), icpt=False, sw=False):
         elif fn in ('IFERROR', 'IFNA') and len(a) == 2:
             yield from leaves(a[0], conds, True, sw)
             yield from leaves(a[1], conds + (('iferr', a[0], fn),), icpt, sw)
-        elif fn in ('ISERROR', 'COUNT'):
+        elif fn in ('ISERROR', 'COUNT', 'ISNA', 'ISNUMBER', 'ISTEXT',
+                    'ISBLANK', 'ISLOGICAL'):
             for x in a:
                 yield from leaves(x, conds, icpt, True)
         else:
